@@ -36,8 +36,8 @@ AddRead == /\ phase = "build" /\ Room(1)
            /\ UNCHANGED <<stack, decl, phase>>
 
 CanOpen(k) ==
-  /\ ("function" \in SeqSet(stack) => k \in FlowKinds)
-  /\ (k = "lmixin" => SeqSet(stack) \subseteq {"rule", "media", "atrule"})
+  /\ (SeqSet(stack) \cap FnKinds # {} => k \in FlowKinds)
+  /\ (k \in LocalDef => SeqSet(stack) \subseteq {"rule", "media", "atrule"})
 
 AddOpen == /\ phase = "build" /\ Len(stack) < MaxDepth /\ Room(3)   \* open + a read + close
            /\ \/ \E k \in OpenKinds : CanOpen(k) /\ prog' = Append(prog, Open(k, "-")) /\ stack' = Append(stack, k)
